@@ -3139,8 +3139,13 @@ func (c *ChannelArbitrator) handleBlockbeat(beat chainio.Blockbeat) error {
 	// is closed in this blockbeat.
 	c.receiveAndProcessCloseEvent()
 
-	// Try to advance the state if we are in StateDefault.
-	if c.state == StateDefault {
+	// Try to advance the state if we are in StateDefault. We also do so in
+	// StateBroadcastCommit: we only stay in that state if a previous
+	// attempt to force close and broadcast the commitment failed (the chain
+	// backend or the signer being unavailable for instance). The decision
+	// to go to chain has been committed already, so we re-execute the
+	// state, as we'd do on restart, instead of letting the HTLCs expire.
+	if c.state == StateDefault || c.state == StateBroadcastCommit {
 		// Now that a new block has arrived, we'll attempt to advance
 		// our state forward.
 		_, _, err := c.advanceState(
